@@ -625,6 +625,9 @@ C10_TEMPLATES = [
     ("tuple-pattern", lambda B: Node("lett", [B, "u"], Node("tup", [_sp("x"), _l("3.0")]), _b("add", _b("add", _v(B), _v("u")), _sp("x")))),
     ("lambda-param", lambda B: Node("let", "f", Node("lam", [B], _b("add", _v(B), _sp("x"))), Node("app", _v("f"), [_l("5.0")]))),
     ("let-mem", lambda B: Node("let", B, Node("mem", _sp("x"), 1), _b("add", _v(B), _sp("x")))),
+    # the binder names a let-bound FUNCTION whose body holds the splice: the binder is not in scope in its own value
+    # (seeded C10d rebuilt `let g = |n| …` as a letrec, so a spliced `g` became a recursive call)
+    ("let-lambda", lambda B: Node("let", B, Node("lam", ["n"], _b("add", _sp("x"), _v("n"))), Node("app", _v(B), [_l("5.0")]))),
     ("splice-next-to", lambda B: Node("let", "s", _sp("x"), Node("let", B, _l("10.0"), _b("add", _v("s"), _v(B))))),
     ("assign", lambda B: Node("let", B, _l("10.0"), Node("set", B, _b("add", _v(B), _sp("x")), _v(B)))),
     ("if-arm", lambda B: Node("let", "c", Node("if", _b("ge", _sp("x"), _l("0.0")), Node("let", B, _l("10.0"), _b("add", _v(B), _sp("x"))), _sp("x")), _v("c"))),
